@@ -38,8 +38,8 @@ TECHNIQUE = ("bounded exhaustive enumeration of a deviation-bounded left/right s
              "(explicit-state exploration, mode L) with the integral conservation law as oracle")
 CLAIM = ("Every left/right state within K deviations (K=2 quick, K=3 thorough for the ideal-gas solver; K=1 / K=2 for the general-EOS "
          "solver) of four root states, one per wave pattern, over the alphabet rho in {1,0.125,3}, p in {1,0.1,10}, u in {0,+-0.3,+-1.5}, "
-         "gamma in {1.4,5/3,2} per side and membrane in {0.5,0.3,0}, plus the eight tabulated problems, their mirror images and the two JWL "
-         "problems, is solved at two times; the integrals of mass, momentum and total energy over a window containing all waves "
+         "gamma in {1.4,5/3,2} per side and membrane in {0.5,0.3,0}, plus the eight tabulated problems, their mirror images, the two JWL "
+         "problems and 64 computed states straddling the wave-pattern classification boundaries (x mirror), is solved at two times; the integrals of mass, momentum and total energy over a window containing all waves "
          "(found from the fields) are compared with initial integral + t*(F_left - F_right) under an explicit quadrature error bound. "
          "Exhaustive over the stated lattice; the enumerator asserts that every physically reachable (pattern x velocity-difference) cell "
          "is populated. Right level: the property is an integral identity whose failure modes are per-pattern formulas, so the relevant "
